@@ -271,3 +271,75 @@ def shutdown_history(rng):
                 extra.append("%s:%s=%s" % (run, cmd, rng.choice(["200", "503", "410", "409", "413", "neterr"])))
     ops.append("proc cleanexit default=%s %s" % (default, " ".join(extra)))
     return ops
+
+
+def lifecycle_history(rng):
+    """connect failures, back-off windows probed from both sides, inactivity, restarts at harvest"""
+    timeout = rng.choice([0, 600, 600])
+    g = Gen(rng, napps=rng.choice([1, 2]), profile="lifecycle", timeout=timeout)
+    for i in range(1, g.napps + 1):
+        g.defapp(i)
+    for h in g.apps:
+        fails = rng.randint(0, 3)
+        for _ in range(fails):
+            out = rng.choice(["malformed", "norunid", "409", "503", "500", "neterr", "pre503", "preneterr", "pre409"])
+            g.ops.append("proc app %s run=-" % h)
+            if out.startswith("pre"):
+                g.ops.append("proc reply %s preconnect 0 %s" % (h, out[3:]))
+            else:
+                g.ops.append("proc reply %s preconnect 0 200 host=coll-%s.example" % (h, h))
+                if out in ("malformed", "norunid"):
+                    g.ops.append("proc reply %s connect 0 200 bad=%s" % (h, out))
+                else:
+                    g.ops.append("proc reply %s connect 0 %s" % (h, out))
+            # probe the back-off window: queries inside it must not move it
+            a = rng.choice([1, 10, 20, 29])
+            g.ops.append("proc advance %d" % a)
+            g.ops.append("proc app %s run=%s" % (h, rng.choice(["-", "rX"])))
+            g.ops.append("proc advance %d" % rng.choice([30 - a, 31 - a, 30, 5]))
+            g.ops.append("proc app %s run=-" % h)
+            g.ops.append("proc state")
+        final = rng.choice(["200", "200", "200", "410", "401", "pre410", "pre401"])
+        g.ops.append("proc advance 31")
+        g.ops.append("proc app %s run=-" % h)
+        if final.startswith("pre"):
+            g.ops.append("proc reply %s preconnect 0 %s" % (h, final[3:]))
+        else:
+            g.ops.append("proc reply %s preconnect 0 200 host=coll-%s.example" % (h, h))
+            if final == "200":
+                run, args = g.connect_reply_args(h)
+                g.ops.append("proc reply %s connect 0 200 %s" % (h, args))
+                g.run_of[h] = run
+            else:
+                g.ops.append("proc reply %s connect 0 %s" % (h, final))
+        g.ops.append("proc app %s run=-" % h)
+    for _ in range(rng.randint(2, 12)):
+        h = rng.choice(g.apps)
+        run = g.run_of.get(h)
+        k = rng.random()
+        if run and k < 0.3:
+            g.txn(run)
+        elif run and k < 0.5:
+            g.trigger(run)
+            o = g.reply(run, outcome=rng.choice(["200", "401", "409", "410", "503", "200"]))
+            if o in FATAL:
+                g.dead_runs.append(run)
+                g.run_of.pop(h, None)
+                g.ops.append("proc state")
+                g.ops.append("proc app %s run=%s" % (h, run))
+                g.ops.append("proc advance 31")
+                g.ops.append("proc app %s run=%s" % (h, run))
+        elif run and timeout and k < 0.7:
+            # inactivity: the run is dropped at the next harvest tick, agents must then be told to reconnect
+            g.ops.append("proc advance %d" % rng.choice([601, 599, 700]))
+            g.ops.append("proc trigger %s %d" % (run, rng.choice([ALL, DEFAULT, 32])))
+            g.ops.append("proc state")
+            g.ops.append("proc app %s run=%s" % (h, run))
+            g.ops.append("proc app %s run=-" % h)
+            g.ops.append("proc txn %s name=t1 ev=%d" % (run, g.fresh()[0]))
+        else:
+            g.ops.append("proc app %s run=%s" % (h, rng.choice(["-", run or "-", "rX"] + g.dead_runs[-1:])))
+            g.ops.append("proc advance %d" % rng.choice([1, 15, 31]))
+    g.ops.append("proc state")
+    g.ops.append("proc cleanexit default=200")
+    return g.ops
